@@ -117,6 +117,16 @@ impl<T: PayloadEncode> WireEncode for ScionPacket<T> {
     fn wire_valid(&self) -> Result<(), InvalidStructureError> {
         self.header.wire_valid()?;
         self.payload.wire_valid()?;
+
+        // The payload length field of the common header is 16 bits wide, a larger payload would be
+        // encoded with a wrapped length.
+        let payload_size = self.payload.required_size(self.header.required_size());
+        if payload_size > u16::MAX as usize {
+            return Err(InvalidStructureError::from(
+                "payload size exceeds maximum encodeable value of 65535 bytes",
+            ));
+        }
+
         Ok(())
     }
 
